@@ -201,6 +201,10 @@ func (t *Tools) Run(argv []string, stdin string) kern.ToolResult {
 			}
 		}
 		stdout = []byte(b.String())
+		if strings.Contains(stdin, "LONGNOISE") {
+			// a warning of the interpreter in front of the report: one line of 5000 bytes
+			stdout = append([]byte("DeprecationWarning: "+strings.Repeat("the imp module is deprecated ", 172)+"\n"), stdout...)
+		}
 		if len(issues) > 0 {
 			code = 1
 		}
